@@ -48,7 +48,7 @@ Param Hist::genParam(const std::string& name, std::string* descr) {
     std::ostringstream d; d << "type=" << (type == 0 ? "int" : type == 1 ? "float" : "string") << " dims=" << (explicitDims ? dimsToStr(dims) : std::string("implicit")) << " n=" << prod << " desc=" << dl;
     try {
     if (type == 0) { std::vector<int> v; for (size_t i = 0; i < prod; ++i) v.push_back(rng.chance(15) ? (rng.chance(50) ? 32767 : -32768) : rng.range(-3000, 3000));
-        if (explicitDims) p.set(v, dims); else if (prod == 1 && rng.chance(50)) { if (v[0] >= 0 && rng.chance(40)) p.set(static_cast<size_t>(v[0])); else p.set(v[0]); } else p.set(v); }
+        if (explicitDims) p.set(v, dims); else if (prod == 1 && rng.chance(50)) { if (v[0] >= 0 && rng.chance(40)) { static const size_t big[] = {0, 1, 255, 32767, 32768, 65535, 65536, 100000}; size_t sv = rng.chance(50) ? static_cast<size_t>(v[0]) : big[rng.below(8)]; if (sv > 32767) beyondInt16 = true; p.set(sv); } else p.set(v[0]); } else p.set(v); }
     else if (type == 1) { std::vector<float> v; for (size_t i = 0; i < prod; ++i) v.push_back(bitsf(genFloatBits(rng, specialFloats)));
         if (explicitDims) p.set(v, dims); else if (prod == 1 && rng.chance(50)) { if (rng.chance(40)) p.set(static_cast<double>(v[0])); else p.set(v[0]); } else p.set(v); }
     else { std::vector<std::string> v; bool wide = rng.chance(12); for (size_t i = 0; i < prod; ++i) { int l = rng.chance(15) ? 0 : rng.range(1, 12); if (wide && (i == 0 || rng.chance(10))) l = rng.range(120, 255); /* very uneven widths: long padding runs */ std::string s; for (int k = 0; k < l; ++k) s += (char)("ABCdef ghi_12"[rng.below(13)]); while (!s.empty() && s[s.size() - 1] == ' ') s[s.size() - 1] = 'z'; if (!s.empty() && rng.chance(6)) s[s.size() - 1] = "\t\n\r\v\f"[rng.below(5)]; /* a cell may END in white space other than a blank: only blanks are padding */ v.push_back(s); }
@@ -115,6 +115,12 @@ bool Hist::opAddParam() {
         bool exists = false; for (size_t i = 0; i < pnames.size(); ++i) if (pnames[i] == v) exists = true;
         if (v != base && !exists) { name = v; caseVariantNames = true; }
     }
+    if (!replace && !pnames.empty() && rng.chance(6)) {
+        // a name that merely EXTENDS an existing one (LABELS2, USED_BY, RATE_X): a different parameter, appended
+        std::string base = pnames[rng.below(pnames.size())], v = base + (rng.chance(50) ? "2" : "_X");
+        bool exists = false; for (size_t i = 0; i < pnames.size(); ++i) if (upperS(pnames[i]) == upperS(v)) exists = true;
+        if (!exists && v.size() < 100) name = v;
+    }
     int bad = rng.chance(12) ? rng.range(1, 2) : 0;          // 1 unnamed, 2 untyped
     std::string d; Param p = genParam(bad == 1 ? "" : name, &d);
     if (bad == 2) { p = Param(name, "untyped"); d = "untyped"; }
@@ -149,6 +155,8 @@ bool Hist::opParamSet() {
     int mode = rng.range(0, 5);   // 0,1 consistent; 2 one fewer; 3 one more; 4 empty data; 5 random
     if (mode <= 1) n = nd ? prod : (size_t)rng.range(0, 5); else if (mode == 2) n = (nd ? prod : 3) - ((nd ? prod : 3) ? 1 : 0); else if (mode == 3) n = (nd ? prod : 3) + 1; else if (mode == 4) n = 0; else n = (size_t)rng.range(0, 9);
     if (n > 600) n = 600;
+    if (rng.chance(8)) { static const size_t tab[][3] = {{16, 16, 0}, {2, 128, 0}, {4, 64, 0}, {128, 2, 0}, {16, 4, 4}, {8, 32, 0}, {255, 255, 0}, {64, 4, 2}};
+        const size_t* t = tab[rng.below(8)]; dims.clear(); prod = 1; for (int i = 0; i < 3 && t[i]; ++i) { dims.push_back(t[i]); prod *= t[i]; } nd = (int)dims.size(); n = rng.chance(70) ? 0 : (size_t)rng.range(1, 5); }   // products that are multiples of 256 (or large), mostly with no data at all
     bool expectOk;
     if (nd == 0) expectOk = true;
     else if (n == 0) expectOk = (prod == 0);
